@@ -235,9 +235,9 @@ func c09Apply(st *c09State, mu MutC09) string {
 		m.Tier = uint16(mu.V) & 0xFFF
 		return fmt.Sprintf("SetTier(%#x)", uint16(mu.V))
 	case 1:
-		s.SetAdjustPTS(gots.PTS(mu.V & m33))
+		s.SetAdjustPTS(gots.PTS(mu.V)) // possibly wider than the field: truncated to 33 bits
 		st.adjusted = mu.V & m33
-		return fmt.Sprintf("SetAdjustPTS(%d)", mu.V&m33)
+		return fmt.Sprintf("SetAdjustPTS(%#x)", mu.V)
 	case 2:
 		s.SetAlignmentStuffing(uint(mu.V % 4))
 		m.Stuffing = int(mu.V % 4)
@@ -333,7 +333,7 @@ func c09Apply(st *c09State, mu MutC09) string {
 			return ""
 		}
 		v := mu.V & m33
-		s.SetPTS(gots.PTS(v))
+		s.SetPTS(gots.PTS(mu.V)) // possibly wider than the field: truncated to 33 bits
 		st.adjusted = v
 		if m.Cmd == 0x06 {
 			m.TSPTS = v
@@ -404,7 +404,7 @@ func c09Apply(st *c09State, mu MutC09) string {
 		d.SetIsArchiveAllowed(mu.B)
 		md.Archive = mu.B
 	case 25:
-		d.SetDeviceRestrictions(scte35.DeviceRestrictions(mu.V & 3))
+		d.SetDeviceRestrictions(scte35.DeviceRestrictions(mu.V & 0xFF)) // a 2-bit field
 		md.Device = byte(mu.V & 3)
 	case 26:
 		d.SetTypeID(scte35.SegDescType(mu.V))
@@ -457,7 +457,7 @@ func c09Apply(st *c09State, mu MutC09) string {
 			co := scte35.CreateComponentOffset()
 			co.SetComponentTag(byte(0x40 + i))
 			off := (mu.V >> 8) & m33
-			co.SetPTSOffset(gots.PTS(off))
+			co.SetPTSOffset(gots.PTS(mu.V >> 8)) // possibly wider than the 33-bit field
 			if mu.B {
 				co = c09WrappedComp{ComponentOffset: co}
 			}
@@ -521,7 +521,7 @@ func c09Apply(st *c09State, mu MutC09) string {
 		}
 		i := int(mu.V>>40) % len(hs)
 		off := mu.V & m33
-		hs[i].SetPTSOffset(gots.PTS(off))
+		hs[i].SetPTSOffset(gots.PTS(mu.V)) // possibly wider than the 33-bit field
 		hs[i].SetComponentTag(byte(mu.V >> 33))
 		md.Comps[i] = ref.SegOffset{Tag: byte(mu.V >> 33), Offset: off}
 		return fmt.Sprintf("descriptor[%d].Components()[%d].SetPTSOffset(%d)/SetComponentTag(%#x)", mu.K, i, off, byte(mu.V>>33))
@@ -741,6 +741,18 @@ func c09VerifyEncoding(st *c09State, c CaseC09, what string) *hx.Failure {
 		if ds[k].SCTE35() != st.sig {
 			return hx.Failf("getter-descriptor-backref", "descriptor %d does not refer back to its signal (%s)", k, what)
 		}
+	}
+	// command level: every getter equals the model where the syntax carries the field (values truncated to the field width)
+	if ins, ok := st.sig.CommandInfo().(scte35.SpliceInsertCommand); ok && em.Cmd == 0x05 && !em.Ins.Cancel {
+		if em.Ins.Dur && u33(ins.Duration()) != em.Ins.Duration {
+			return hx.Failf("getter-insert-duration", "splice_insert Duration() = %#x, want %#x (the value set, truncated to 33 bits) (%s)", u33(ins.Duration()), em.Ins.Duration, what)
+		}
+		if em.Ins.Prog && !em.Ins.Immediate && em.Ins.HasPTS && u33(ins.PTS()) != em.Ins.PTS {
+			return hx.Failf("getter-insert-pts", "splice_insert PTS() = %#x, want %#x (the value set, truncated to 33 bits) (%s)", u33(ins.PTS()), em.Ins.PTS, what)
+		}
+	}
+	if ts, ok := st.sig.CommandInfo().(scte35.TimeSignalCommand); ok && em.Cmd == 0x06 && em.TSHasPTS && u33(ts.PTS()) != em.TSPTS {
+		return hx.Failf("getter-timesignal-pts", "time_signal PTS() = %#x, want %#x (the value set, truncated to 33 bits) (%s)", u33(ts.PTS()), em.TSPTS, what)
 	}
 	if !st.arenaIntact() {
 		return hx.Failf("setter-arg-memory-written", "the buffer the UPID slices given to SetUPID were cut from was modified by the library, at byte %d of %d (%s)", firstDiff(st.arena, st.arenaKeep), len(st.arena), what)
